@@ -9,19 +9,23 @@ func selU64(xs []uint64, i uint64) uint64 {
 }
 
 // c10Tree builds the tree for the navigation harnesses.
-//   MODE 0 in memory; 1 persisted and re-loaded; 2 never populated; 3 emptied by deletes; 4 emptied, persisted, re-loaded
+//   MODE 0 in memory; 1 persisted and re-loaded; 2 never populated; 3 emptied by deletes; 4 emptied, persisted, re-loaded;
+//   5 persisted, the in-process handle kept (its root is a name); 6 persisted and re-loaded through the writer's node cache
 func c10Tree() (t *Mast, md *symModel, ks []uint64, vs []uint64, ok bool) {
 	N := verifBound("N")
 	bf := uint(verifBound("BF"))
 	mode := verifBound("MODE")
 	st := newVStore("s1")
 	cfg := symConfig(st, nil)
+	if mode == 6 {
+		cfg = symConfig(st, &vCache{})
+	}
 	t, err := NewRoot(&CreateRemoteOptions{BranchFactor: bf}).LoadMast(vctx, cfg)
 	verifAssert("C01.new.err", err == nil)
 	md = &symModel{}
 	ok = true
 	switch mode {
-	case 0, 1:
+	case 0, 1, 5, 6:
 		ks = buildAscending("build", t, md, N)
 		for _, k := range ks {
 			_, v := md.lookup(k)
@@ -37,7 +41,14 @@ func c10Tree() (t *Mast, md *symModel, ks []uint64, vs []uint64, ok bool) {
 			md.del(k)
 		}
 	}
-	if mode == 1 || mode == 4 {
+	if mode == 5 {
+		_, err := t.MakeRoot(vctx)
+		verifAssert("C01.makeroot.err", err == nil)
+		if err != nil {
+			return nil, nil, nil, nil, false
+		}
+	}
+	if mode == 1 || mode == 4 || mode == 6 {
 		r, err := t.MakeRoot(vctx)
 		verifAssert("C01.makeroot.err", err == nil)
 		if err != nil {
